@@ -142,6 +142,7 @@ std::string snap(const Circuit &c) {
 struct Result {
   std::string impl;                 // the single answer line (without the tag)
   std::vector<std::string> fails;   // direct-oracle failures
+  std::vector<std::string> counts;  // counters measured inside the fork (reported to out.count by the parent)
 };
 struct Item {
   std::string caseId;
@@ -162,6 +163,7 @@ struct Runner {
   static std::string encode(const Result &r) {
     std::string s = "I " + r.impl + "\n";
     for (auto &f : r.fails) s += "F " + f + "\n";
+    for (auto &c : r.counts) s += "C " + c + "\n";
     return s + "E\n";
   }
   void emit(const Item &it, const std::string &impl, const std::vector<std::string> &fails) {
@@ -188,6 +190,7 @@ struct Runner {
       while (std::getline(is, ln)) {
         if (ln.rfind("I ", 0) == 0) impl = ln.substr(2);
         else if (ln.rfind("F ", 0) == 0) fails.push_back(ln.substr(2));
+        else if (ln.rfind("C ", 0) == 0) out.count(ln.substr(2));
         else if (ln == "E") { emit(pending[i++], impl, fails); fails.clear(); }
       }
     } else {
@@ -202,6 +205,7 @@ struct Runner {
           while (std::getline(is, ln)) {
             if (ln.rfind("I ", 0) == 0) impl = ln.substr(2);
             else if (ln.rfind("F ", 0) == 0) fails.push_back(ln.substr(2));
+            else if (ln.rfind("C ", 0) == 0) out.count(ln.substr(2));
           }
           emit(it, impl, fails);
         } else {
@@ -262,6 +266,35 @@ Circuit tinyCircuit() {
   return c;
 }
 
+// Boundary circuits.  Family addressed: an entry point that short-circuits on a degenerate circuit ("nothing to place": no
+// cell, one cell, no row, no net, nothing movable, no area) BEFORE it validates its parameters, so that a rejected parameter set
+// or effort is silently accepted there.  The property quantifies over parameter values, not over circuits: a set that check()
+// rejects must be refused whatever circuit it is passed with.  Every rejected set / invalid effort is passed to the entry
+// points on tinyCircuit() and on one of these shapes in rotation (the shape is part of the reported input).
+const int kShapes = 10;
+const char *shapeName(int k) {
+  static const char *nm[] = {"0 cells, no row, no net", "0 cells, 2 rows", "1 movable cell, 1 row, no net", "1 fixed cell, 1 row, no net",
+                             "3 cells, 2 nets, no row", "3 cells, 2 rows, no net", "3 cells all fixed, 2 rows, 2 nets",
+                             "3 cells of zero width, 2 rows, 2 nets", "1 cell, no row, no net", "0 cells, 1 row, one net without pins"};
+  return nm[k % kShapes];
+}
+Circuit shapeCircuit(int k) {
+  const std::vector<Row> rows = {Row(0, 10, 0, 2, CellOrientation::N), Row(0, 10, 2, 4, CellOrientation::FS)};
+  switch (k % kShapes) {
+    case 0: return Circuit(0);
+    case 1: { Circuit c(0); c.setRows(rows); return c; }
+    case 2: { Circuit c(1); c.setCellWidth({2}); c.setCellHeight({2}); c.setRows({rows[0]}); return c; }
+    case 3: { Circuit c(1); c.setCellWidth({2}); c.setCellHeight({2}); c.setCellIsFixed({true}); c.setRows({rows[0]}); return c; }
+    case 4: { Circuit c = tinyCircuit(); c.setRows({}); return c; }
+    case 5: { Circuit c = tinyCircuit(); c.setNets({0}, {}, {}, {}); return c; }
+    case 6: { Circuit c = tinyCircuit(); c.setCellIsFixed({true, true, true}); return c; }
+    case 7: { Circuit c = tinyCircuit(); c.setCellWidth({0, 0, 0}); return c; }
+    case 8: { Circuit c(1); c.setCellWidth({2}); c.setCellHeight({2}); return c; }
+    default: { Circuit c(0); c.setRows({rows[0]}); c.addNet({}, {}, {}); return c; }
+  }
+}
+int shapeCounter = 0;
+
 void effortItems(Runner &R, const std::string &caseId, int effort) {
   static const char *recs[] = {"ColoquinteParameters", "GlobalPlacerParameters", "ContinuousModelParameters", "RoughLegalizationParameters",
                                "PenaltyParameters", "LegalizationParameters", "DetailedPlacerParameters"};
@@ -301,17 +334,21 @@ void effortItems(Runner &R, const std::string &caseId, int effort) {
     R.add(std::move(it));
   } else {
     // the int-effort entry points of Circuit
-    for (int which = 0; which < 4; ++which) {
+    const int rot = shapeCounter++;
+    for (int w2 = 0; w2 < 8; ++w2) {
+      const int which = w2 % 4;
+      const int shape = w2 < 4 ? -1 : rot;   // -1: tinyCircuit()
       static const char *nm[] = {"place", "placeGlobal", "legalize", "placeDetailed"};
       Item it;
       it.caseId = caseId;
       it.ops = {std::string("placeeffort ") + nm[which] + " " + std::to_string(effort)};
       it.tag = std::string("placeeffort ") + nm[which];
-      it.input = std::string("Circuit::") + nm[which] + "(" + std::to_string(effort) + ")";
+      it.input = std::string("Circuit::") + nm[which] + "(" + std::to_string(effort) + ")" + (shape < 0 ? std::string() : std::string(" on the circuit: ") + shapeName(shape));
       it.onCrash = it.input + " aborts / has undefined behaviour instead of throwing";
-      it.run = [which, effort]() {
+      it.run = [which, effort, shape]() {
         Result r;
-        Circuit c = tinyCircuit();
+        Circuit c = shape < 0 ? tinyCircuit() : shapeCircuit(shape);
+        if (shape >= 0) r.counts.push_back(std::string("invalid_effort_on_boundary_circuit: ") + shapeName(shape));
         std::string before = snap(c);
         try {
           if (which == 0) c.place(effort);
@@ -357,20 +394,25 @@ void checkItems(Runner &R, const std::string &caseId, const CP &p, const std::ve
 
 // placement calls with a parameter set: when check() rejects it, each call must throw that error, run no callback
 // and leave the circuit equal
-void placeItems(Runner &R, const std::string &caseId, const CP &p, const std::string &how) {
-  for (int st = 0; st < 3; ++st) {
+void placeItems(Runner &R, const std::string &caseId, const CP &p, const std::string &how0) {
+  const int rot = shapeCounter++;
+  for (int s2 = 0; s2 < 6; ++s2) {
+    const int st = s2 % 3;
+    const int shape = s2 < 3 ? -1 : rot + (s2 - 3) * 3;   // -1: tinyCircuit(); the three entry points get different shapes
     static const char *nm[] = {"placeGlobal", "legalize", "placeDetailed"};
+    const std::string how = how0 + (shape < 0 ? std::string() : std::string("; on the circuit: ") + shapeName(shape));
     Item it;
     it.caseId = caseId;
     it.ops = {paramsLine(p), std::string("place ") + nm[st]};
     it.tag = std::string("place ") + nm[st];
     it.input = how;
     it.onCrash = std::string(nm[st]) + " aborts / has undefined behaviour with " + how;
-    it.run = [p, st, how]() {
+    it.run = [p, st, how, shape]() {
       Result r;
       std::string verdict = runCheck(p, "ColoquinteParameters");
       if (verdict == "ok") { r.impl = "accepted"; return r; }   // valid sets: no placement work is started here
-      Circuit c = tinyCircuit();
+      Circuit c = shape < 0 ? tinyCircuit() : shapeCircuit(shape);
+      if (shape >= 0) r.counts.push_back(std::string("rejected_set_on_boundary_circuit_") + nm[st] + ": " + shapeName(shape));
       std::string before = snap(c);
       int callbacks = 0;
       PlacementCallback cb = [&](PlacementStep) { ++callbacks; };
@@ -714,7 +756,9 @@ int main(int argc, char **argv) {
   vh::Out out(a.out);
   out.rule = "A: each of the 7 parameter constructors x efforts -16..32 (exhaustive) + random 32-bit efforts, Circuit::place*(int) "
              "for invalid efforts; B: every field at just-below/at/just-above each translated check bound, int-int comparisons, "
-             "enum and bool values, random combinations of 1-3 perturbed fields, rejected sets passed to the 3 placement calls; "
+             "enum and bool values, random combinations of 1-3 perturbed fields, rejected sets passed to the 3 placement calls, each on the "
+             "3-cell circuit and on one of 10 boundary circuits in rotation (0 cells with/without rows, 1 cell, no row, no net, all fixed, "
+             "zero width, a net without pins; counters rejected_set_on_boundary_circuit_*, invalid_effort_on_boundary_circuit) ; "
              "C: the 10 length-checked setters x lengths 0..n+2 on random circuits; D: addNet/setNets with pin cells -2..n+1, "
              "inconsistent lengths, malformed limits; E: expandCellsByFactor x lengths 0..n+2 and factors one ulp around 0.999f and 1, "
              "expandCellsToDensity / maxDensity / margins with nonsense values (unvalidated: observed), computeCellExpansion at its "
